@@ -92,6 +92,8 @@ def hypergraph_weights(U, edges, absent=99):
             ops.append(("add_edge", e, None, w, None))
     for e in unsorted_variants(edges):
         ops.append(("add_edge", e, None, 2, None))
+    ops.append(("add_edge", edges[0], None, 0, None))  # weight 0 is a weight like any other
+    ops.append(("set_weight", edges[-1], None, 0))
     for e in edges:
         ops.append(("remove_edge", e, None))
         ops.append(("set_weight", e, None, 1))
@@ -274,6 +276,8 @@ def record_weights(kind_name, U, records, absent_record=None, has_clear=True, ba
         ops.append(("remove_edge", raw, x))
         ops.append(("set_weight", raw, x, 1))
         ops.append(("set_weight", raw, x, 3))
+    ops.append(("add_edge", records[0][0], records[0][1], 0, None))  # weight 0 is a weight like any other
+    ops.append(("set_weight", records[-1][0], records[-1][1], 0))
     for n in U:
         ops.append(("remove_node", n, False))
         ops.append(("remove_node", n, True))
